@@ -302,7 +302,7 @@ func (in *Interp[K, V]) RunRandom(family string, sid int, seed int64, steps int,
 	if g.dom > in.probe {
 		g.dom = in.probe
 	}
-	out(Line{T: "reset", SID: sid, W: []any{}, Args: []any{}})
+	out(Line{T: "reset", SID: sid, W: []any{}, Args: []any{}, R: map[string]any{"t": "none"}})
 	var isPrimary = func(k string) bool {
 		for _, p := range fam.primary {
 			if p == k {
